@@ -1037,7 +1037,12 @@ class PseudoNetCDFFile(PseudoNetCDFSelfReg, object):
             # should be defined.
             if (
                 isinstance(val, (PseudoNetCDFVariable,)) and
-                val.dimensions != ()
+                val.dimensions != () and
+                # (operands of different rank broadcast: the result may carry
+                # the dimensions of the smaller one; then it is labelled like
+                # a plain array)
+                tuple(len(self.dimensions[dk]) if dk in self.dimensions
+                      else -1 for dk in val.dimensions) == val.shape
             ):
                 if any(np.may_share_memory(val, v)
                        for v in self.variables.values()
